@@ -29,7 +29,8 @@ from checks import c03_sched as C3
 NS = C3.NS
 ROOM = C3.ROOM
 
-BYSTANDER = ['b_cdisc', 'b_lose', 'b_connect', 'b_event']
+BYSTANDER = ['b_cdisc', 'b_lose', 'b_connect', 'b_event', 'app_broadcast',
+             'app_room_emit']
 OFFENDER = ['o_connect', 'o_cdisc', 'o_lose', 'o_event_join',
             'o_connect_other']
 
@@ -46,6 +47,12 @@ def actor(w, name, seen):
         return lambda: w.extra.connect(NS)
     if name == 'b_event':
         return lambda: w.T[1].send_packet(R.EVENT, NS, 5, ['hello', 1])
+    if name == 'app_broadcast':
+        # the application tells the whole namespace something while the
+        # offender comes or goes
+        return lambda: d.sio.emit('news', {'n': 1}, namespace=NS)
+    if name == 'app_room_emit':
+        return lambda: d.sio.emit('news', {'n': 1}, to=ROOM, namespace=NS)
     if name == 'o_connect':
         return lambda: w.off2.connect(NS)
     if name == 'o_cdisc':
@@ -105,8 +112,23 @@ def run_schedule(ctx, pair, choices, rng, bound):
                           pair[0], pair[1], errs[0].get('exc'),
                           errs[0].get('actor') or 'the server'), wit)
         return trace
-    # sequential probes from here on
     b_op = pair[0]
+    if b_op in ('app_broadcast', 'app_room_emit'):
+        # every bystander that is addressed got the news, once
+        for i in (0, 1, 2):
+            w.T[i].drain()
+            n = len([p for p in w.T[i].packets if p['type'] == R.EVENT and
+                     p['data'][0] == 'news'])
+            ctx.count('bystander_probes_checked')
+            if n != 1:
+                wit['bystander'] = i
+                ctx.violation(None, 'the application\'s %s was issued while '
+                              'another thread handled the offender\'s %s: '
+                              'bystander %d received it %d times' % (
+                                  'broadcast' if b_op == 'app_broadcast'
+                                  else 'emit to a room', pair[1], i, n), wit)
+                return trace
+    # sequential probes from here on
     left = b_op in ('b_cdisc', 'b_lose')
     for t in w.T + [w.extra, w.off2]:
         t.drain()
@@ -191,7 +213,8 @@ def run_part(ctx, seconds):
     summary = ctx.extra.setdefault('churn_race_pairs', {})
     limit = 120 if ctx.tier == 'quick' else 4000
     # the pairs in which both sides change the namespace's room table first
-    pairs.sort(key=lambda p: (p[0] not in ('b_cdisc', 'b_lose'),
+    pairs.sort(key=lambda p: (p[0] not in ('b_cdisc', 'b_lose',
+                                           'app_broadcast'),
                               p[1] not in ('o_connect', 'o_cdisc', 'o_lose',
                                            'o_event_join')))
     for bound in (1, 2):
